@@ -547,6 +547,7 @@ where
                         cluster,
                         sfn,
                         att,
+                        ClusterId::EMPTY,
                     )?,
                 };
 
